@@ -67,6 +67,22 @@ def answer (line : String) : String :=
         let h := (Heap.ofCells (t.toCells none)).rotate i
         s!"shape {shape.toWire} cells {cellsToWire h t.ids}"
       | none => "bad-op"
+  | "layout" :: ux :: uy :: rep :: rest => withShape rest fun t =>
+      match ratOfWire ux, ratOfWire uy with
+      | some ux, some uy =>
+        match (if rep == "1" then layoutTwice t ux uy else layout t ux uy) with
+        | some st =>
+          let b := bounds st
+          s!"xs {ratsToWire st.x} | ys {ratsToWire st.y} | bounds {ratsToWire [b.1, b.2.1, b.2.2.1, b.2.2.2]}"
+        | none => "loop-guard"
+      | _, _ => "bad-op"
+  | "pyeval" :: rest =>
+    match PEx.ofWire (rest.length + 1) rest with
+    | some (t, env) =>
+      match pyEval (pyEnvOfWire env) t with
+      | .ok v => v.toWire
+      | .error e => s!"exc {e.name}"
+    | none => "bad-tree"
   | "eval" :: rest => withTree rest fun t env => (eval (envOfWire env) t).toWire
   | _ => "bad-op"
 
